@@ -18,7 +18,25 @@ let run_mask kvs =
     | s -> let lens = List.map int_of_string (String.split_on_char ',' s) in
       let pos = ref 0 in
       List.map (fun l -> let p = String.sub data !pos l in pos := !pos + l; p) lens in
-  let (out, k') = List.fold_left (fun st p -> mask_piece st (bytes_of_string p)) ([], k) pieces in
+  let guard = String.make 64 '\xA5' in
+  let align = int_of_string (get_or kvs "align" "0") in
+  let (out, k') =
+    if get kvs "fn" = "asm" then begin
+      (* the assembly model runs on (pre, buf, post): length pre = address of the piece modulo 64 *)
+      let total = String.length data in
+      let pos = ref 0 in
+      List.fold_left (fun (acc, k) p ->
+        let l = String.length p in
+        let pre = bytes_of_string (guard ^ String.make align '\xA5') @ acc in
+        let post = bytes_of_string (String.sub data (!pos + l) (total - !pos - l) ^ guard) in
+        pos := !pos + l;
+        match maskAsm_amd64 ((pre, bytes_of_string p), post) k with
+        | AsmDone (((pre', b'), post'), k') ->
+          if pre' <> pre || post' <> post then failwith "asm model touched memory outside the buffer";
+          (acc @ b', k')
+        | AsmFault -> failwith "asm model fault") ([], k) pieces
+    end else
+      List.fold_left (fun st p -> mask_piece st (bytes_of_string p)) ([], k) pieces in
   let spec = mask_spec k (bytes_of_string data) in
   let o = string_of_bytes out in
   Printf.sprintf "out=%s key=%s spec=%s" (fnv o) (hex_of_key k') (fnv (string_of_bytes spec))
